@@ -42,7 +42,11 @@ ASSUME_BLOCK = [
     "registries are not run (the theorems have no size bound, the correspondence has). Every fork also runs under configurations whose per-fork constant "
     "families (slashing penalty quotients, proportional multipliers, leak quotients) and per-block MAX_* limits are pairwise different ('+apart', the chain "
     "library's apart:<seed>), with blocks carrying exactly MAX_x operations of each kind, MAX_x + 1 all-valid operations (typed API), attestation backlogs "
-    "(deneb: inclusion later than one epoch) and payload extra_data of 0 / 31 / 32 bytes; the mainnet constants themselves run in the thorough tier only",
+    "(deneb: inclusion later than one epoch) and payload extra_data of 0 / 31 / 32 bytes; in those configurations the Gwei constants differ too (MAX_EFFECTIVE_BALANCE 40 ETH, EJECTION_BALANCE "
+    "33 ETH, the electra preset's MIN_ACTIVATION_BALANCE 24 ETH that deneb code could reach by mistake). `blk mode=payload` lines run the fork's "
+    "ProcessExecutionPayload ALONE against process_execution_payload (ProcessBlock repeats the blob-commitment bound in CheckLimits, so a defect in the "
+    "payload step's own bound is invisible through the block entry); c03 also applies a second block of the same slot to the post-block state. The mainnet "
+    "constants themselves run in the thorough tier only",
 ]
 
 PROPS["C01"] = dict(
